@@ -326,6 +326,13 @@ def diff_kind(exp, act):
 def judge_sort(case, exp, ctx, before, act):
     """Sort is judged by the validity predicate; returns the value to use as
     `actual` (== exp when the engine's answer is valid)."""
+    cmp_spec = case["args"][0] if case["args"] else U
+    if exp[0][0] == "throw" and cmp_spec[0] == "cb" and isinstance(act, list) and len(act) == 3 and isinstance(act[2], list):
+        # the comparator threw: which pair is compared first is the implementation's business
+        log = act[2]
+        if len(log) == 1 and len(log[0]) == 4 and log[0][3] == ["u"] and log[0][0] != ["u"] and log[0][1] != ["u"]:
+            return [act[0], act[1], exp[2]], None
+        return act, None
     if exp[0][0] == "throw" or not isinstance(act, list) or len(act) != 3 or act[0][0] != "ok":
         return act, None
     res, recv, log = act
@@ -337,7 +344,6 @@ def judge_sort(case, exp, ctx, before, act):
         if res[1][0] != "arr" or res[1][1] != -1 or recv != exp[1]:
             return act, "result not fresh / receiver changed"
         after_cv = res[1][2]
-    cmp_spec = case["args"][0] if case["args"] else U
     if cmp_spec[0] == "cb" and G.CALLBACKS[cmp_spec[1]][2]:
         # a comparator that modifies the receiver (it is consistent): the result is unique, only the
         # number and order of comparator calls is the implementation's business
